@@ -50,15 +50,21 @@ def _state(path):
         for p, ie in wt.iter_entries_by_dir():
             if p:
                 ver[p] = (ie.kind, ie.file_id if getattr(wt, "supports_file_ids", True) else None)
+        # the basis the tree claims to be at belongs to its versioning metadata
+        ver["<parents>"] = ("parents", tuple(wt.get_parent_ids()))
     return disk, ver
 
 
 def _agree(disk, ver, missing_ok):
     """every versioned path exists on disk with the recorded kind (unless it was already missing / kind-changed before)."""
     bad = []
-    for p, (kind, _) in ver.items():
+    ids_ok = missing_ok[1] if isinstance(missing_ok, tuple) else set()
+    missing_ok = missing_ok[0] if isinstance(missing_ok, tuple) else missing_ok
+    for p, (kind, fid) in ver.items():
+        if p == "<parents>":
+            continue
         d = disk.get(p)
-        if p in missing_ok:
+        if p in missing_ok or (fid is not None and fid in ids_ok):
             continue
         if d is None or d[0] != kind:
             bad.append((p, kind, d[0] if d else None))
@@ -76,8 +82,20 @@ def _prepare(ctx):
     gen.random_delta(rng, wt, names, rng.randint(4, 9), log=log)
     wt.smart_add([p])
     wt.commit("base", rev_id=b"base")
-    cmd = rng.choice(["revert", "revert", "revert-nobackup", "merge", "merge", "script"])
-    if cmd == "merge":
+    cmd = rng.choice(["revert", "revert", "revert-nobackup", "merge", "merge", "script", "update", "update"])
+    if cmd == "update":
+        # t becomes an out-of-date heavyweight checkout: the master gets new revisions
+        from breezy.workingtree import WorkingTree
+
+        m = os.path.join(root, "m")
+        wt.branch.controldir.sprout(m)
+        mwt = WorkingTree.open(m)
+        gen.random_delta(rng, mwt, names, rng.randint(3, 8), log=log)
+        mwt.smart_add([m])
+        mwt.commit("master moves on", rev_id=b"master-2")
+        wt.branch.bind(mwt.branch)
+        gen.random_delta(rng, wt, names, rng.randint(0, 3), log=log)
+    elif cmd == "merge":
         # other branch with its own changes
         o = os.path.join(root, "o")
         wt.branch.controldir.sprout(o)
@@ -135,6 +153,8 @@ def _run_command(path, cmd, root, seed):
     from breezy.workingtree import WorkingTree
 
     wt = WorkingTree.open(path)
+    if cmd == "update":
+        wt.branch.set_bound_location(Branch.open(os.path.join(root, "m")).base)
     if cmd == "revert":
         wt.revert()
     elif cmd == "revert-nobackup":
@@ -144,6 +164,8 @@ def _run_command(path, cmd, root, seed):
             wt.merge_from_branch(Branch.open(os.path.join(root, "o")))
     elif cmd == "script":
         _script(wt, seed)
+    elif cmd == "update":
+        wt.update()
 
 
 def _copy(root, ctx):
@@ -161,7 +183,9 @@ def case(ctx):
         ctx.discard("workload construction failed: %s" % type(e).__name__)
     seed = rng.random()
     before_disk, before_ver = _state(os.path.join(root, "t"))
-    missing_ok = {p for p, (k, _) in before_ver.items() if before_disk.get(p, (None,))[0] != k}
+    _miss = {p for p, (k, _) in before_ver.items() if p != "<parents>" and before_disk.get(p, (None,))[0] != k}
+    # (paths, file ids) that were already missing / of another kind on disk before the command: they may stay so, also under a new name
+    missing_ok = (_miss, {before_ver[p][1] for p in _miss} | {fid for q, (k, fid) in before_ver.items() if q != "<parents>" and any(q.startswith(m + "/") for m in _miss)})
     # twin: unfaulted run (also the dry run that counts the fault positions)
     twin = _copy(root, ctx)
     _F.begin(fail_at=None, only_in=("/transform.py",))
@@ -175,6 +199,7 @@ def case(ctx):
         ctx.discard("the unfaulted command itself failed: %s" % type(e).__name__)
     n = _F.count
     calls = list(_F.calls)
+    nwin = _F.windows
     ctx.count("apply_windows")
     ctx.count("dry_fs_calls", n)
     after_disk, after_ver = _state(os.path.join(twin, "t"))
@@ -199,6 +224,9 @@ def case(ctx):
         ctx.count("fault_runs")
         name = calls[k - 1][0] if k - 1 < len(calls) else "?"
         phase = "deletion" if name == "delete_any" and all(c[0] == "delete_any" for c in calls[k - 1:]) else "rename/insert"
+        tgt = os.path.basename(str(calls[k - 1][1])) if k - 1 < len(calls) else ""
+        if name == "delete_any" and tgt in ("limbo", "pending-deletion"):
+            phase = "limbo-cleanup"  # finalize() could not remove its own temporary directory after the transform was applied
         detail = dict(detail0, position=k, call=name, phase=phase, raised=repr(raised)[:200], target=os.path.basename(str(calls[k - 1][1]))[:40] if k - 1 < len(calls) else None)
         if _F.fired is None:
             ctx.count("fault_not_reached")
@@ -208,8 +236,13 @@ def case(ctx):
         except Exception as e:
             ctx.fail("after-fault:tree-cannot-be-opened", "fault at #%d %s (%s): %r" % (k, name, phase, e), detail)
             continue
-        is_b = (disk, ver) == (before_disk, before_ver)
-        is_a = (disk, ver) == (after_disk, after_ver)
+        if phase in ("deletion", "limbo-cleanup"):
+            strip = lambda v: {k: x for k, x in v.items() if k != "<parents>"}
+            is_b = (disk, strip(ver)) == (before_disk, strip(before_ver))
+            is_a = (disk, strip(ver)) == (after_disk, strip(after_ver))
+        else:
+            is_b = (disk, ver) == (before_disk, before_ver)
+            is_a = (disk, ver) == (after_disk, after_ver)
         if raised is None:
             ctx.hist("fault-swallowed:" + name)
             ctx.check(is_a, "fault-swallowed:result-differs-from-clean-run", "fault at #%d %s swallowed but the result is not the transformed state" % (k, name), detail)
@@ -219,12 +252,21 @@ def case(ctx):
             ctx.count("state_is_after")
         else:
             what = []
-            if ver == before_ver:
+            np_ = lambda v: {k: x for k, x in v.items() if k != "<parents>"}
+            if np_(ver) == np_(before_ver):
                 what.append("metadata=old")
-            elif ver == after_ver:
+                mclass = "old"
+            elif np_(ver) == np_(after_ver):
                 what.append("metadata=new")
+                mclass = "new"
             else:
                 what.append("metadata=mixed")
+                mclass = None
+            pclass = "old" if ver["<parents>"] == before_ver["<parents>"] else "new" if ver["<parents>"] == after_ver["<parents>"] else "other"
+            # The basis/pending-merge marker is written by the command after apply() returns; it is judged where the
+            # statement is explicit: a failure before the transform is committed restores everything (basis included).
+            if phase not in ("deletion", "limbo-cleanup") and before_ver["<parents>"] != after_ver["<parents>"] and mclass is not None and pclass != mclass:
+                what.append("basis=" + pclass)
             if disk == before_disk:
                 what.append("disk=old")
             elif disk == after_disk:
@@ -238,6 +280,10 @@ def case(ctx):
             if only_exec:
                 ctx.fail("rollback:exec-bit-not-restored", "%s with fault at #%d %s: rolled back, but executable bits changed by the transform before the failure were not restored: %r" % (
                     cmd, k, name, sorted(q for q in disk if disk[q] != before_disk[q])[:4]), detail)
+            elif phase == "deletion" and nwin > 1 and "metadata=mixed" in what:
+                # a command made of several transforms (update): one was committed, the failing one shows the known
+                # deletion-phase mechanism, so the whole is neither the old nor the new layout
+                ctx.fail("fault-in-deletion-phase:multi-transform-command:metadata-mixed", "%s (%d transforms) with fault at #%d %s: %s" % (cmd, nwin, k, name, " ".join(what)), detail)
             else:
                 ctx.fail("fault-in-%s-phase:%s" % (phase.replace("/", "-"), ",".join(what)),
                          "%s with fault at #%d %s: neither the previous nor the transformed state (%s); e.g. %r" % (cmd, k, name, " ".join(what), ddiff), detail)
